@@ -124,6 +124,11 @@ a composite state is accepted while one of its children is current): whether tha
 statement leaves open (C18, correction 1: generated source sets are closed downward so that it never arises), and UML would side
 with the change - a check that reported it would over-reach.
 
+Final regression of rounds nine and ten: after all checks had been strengthened, the 58 kept changes of these two rounds were run
+again against the final quick tiers (`python -m vf.selftest.seeded check <name> quick`, /repo at 1aabe6e); the run was stopped for
+time after 40 changes (C01 ... C14 in name order), all 40 CAUGHT; the remaining 18 (C14 ... C20) were each verified against the
+final version of their check when that check was strengthened.
+
 Sibling catches (a change to one property's anchored code seen by another check as well): `C04-bytequeue-read-offset-survives-clear`
 by C09 and `C11-transition-source-check-before-lock` by C18 (both missed by the check of their own property: the needed alphabet -
 link loss inside a frame, two threads inside a transition - belongs to the sibling); `C20-report-values-shared-across-reports`
